@@ -1,9 +1,10 @@
 """C01  Tunnel never delivers a packet that was not sent (end-to-end integrity).
 
-M: TLC model-checks spec/Tunnel.tla (Integrity, NoForeignUnit) at small constants.
+M: TLC model-checks spec/Tunnel.tla (Integrity, NoForeignUnit) and spec/RawTunnel.tla (raw UDP mode: Integrity,
+   NeverTruncated, DoneDelivered) at small constants.
 G: real iodine + real iodined through a relay, configurations x packets x fault schedules.
 B: every iteration of the real server's and the real client's loop in those runs must be a step of Tunnel.tla
-   (TraceTunnelSrv / TraceTunnelCli, drift only).
+   (TraceTunnelSrv / TraceTunnelCli; raw-mode runs: TraceRawTunnel against RawTunnel.tla; drift only).
 T: every tun write of every run is judged by TLC against spec/MonIntegrity.tla.
 """
 import json
@@ -90,9 +91,9 @@ def specs(tier, seed):
 
 
 def _run(spec):
-    r = runs.execute(spec, want=("C01", "TSRV", "TCLI"))
+    r = runs.execute(spec, want=("C01", "TSRV", "TCLI", "TRAW"))
     return {"label": spec.get("label"), "spec": spec, "events": r["mon"].get("C01", []), "stats": r["stats"],
-            "TSRV": r["mon"].get("TSRV"), "TCLI": r["mon"].get("TCLI"),
+            "TSRV": r["mon"].get("TSRV"), "TCLI": r["mon"].get("TCLI"), "TRAW": r["mon"].get("TRAW"),
             "fabricated": r.get("fabricated"), "san": bool(r["san"]), "hang": r["hang"], "error": r["error"]}
 
 
